@@ -23,7 +23,16 @@ func PodsFilter(sources ...*corev1.ReplicationController) filter.ComparableFilte
 	filters := make([]filter.Filter, 0, len(srcs))
 
 	for _, svc := range srcs {
-		filters = append(filters, filter.Labels(svc.Spec.Selector))
+		// a controller without selector selects by its template labels
+		// (what the API server defaults the selector to), never "every pod"
+		selector := svc.Spec.Selector
+		if len(selector) == 0 && svc.Spec.Template != nil {
+			selector = svc.Spec.Template.Labels
+		}
+		if len(selector) == 0 {
+			continue
+		}
+		filters = append(filters, filter.Labels(selector))
 	}
 
 	return filter.Or(filters...)
